@@ -216,14 +216,22 @@ Proof.
   destruct v; reflexivity.
 Qed.
 
-Lemma replace_arg_vars_paths v at_ e :
+Lemma coerce_or_err_paths t v e : In e (snd (coerce_or_err S t v)) -> e_path e = [].
+Proof. unfold coerce_or_err. destruct (coerce_in S t v); simpl; [intros []|intros [<-|[]]; reflexivity]. Qed.
+
+Lemma replace_arg_vars_paths : forall v at_ e,
   In e (snd (replace_arg_vars S vars v at_)) -> e_path e = [].
 Proof.
-  unfold replace_arg_vars.
-  destruct v; destruct at_ as [t|]; simpl;
-    repeat match goal with
-           | |- context [match ?x with _ => _ end] => destruct x; simpl
-           end; intros H; repeat (destruct H as [H|H]; [subst; reflexivity|]); try contradiction.
+  fix IH 1. intros v at_ e. destruct v as [ |z|s|b|en|x|l|kvs]; cbn [replace_arg_vars].
+  1-4: destruct at_ as [t|]; [apply coerce_or_err_paths|intros []].
+  - destruct at_ as [t|]; [|intros []]. destruct (enum_vals S t) as [vals|]; [|apply coerce_or_err_paths].
+    destruct (existsb (Nat.eqb en) vals); simpl; [intros []|intros [<-|[]]; reflexivity].
+  - destruct at_ as [t|]; [apply coerce_or_err_paths|intros []].
+  - assert (Hl : forall at', In e (flat_map snd (map (fun x => replace_arg_vars S vars x at') l)) -> e_path e = []).
+    { intros at'. induction l as [|x r IHl]; simpl; [intros []|]. rewrite in_app_iff.
+      intros [H|H]; [exact (IH x at' e H)|exact (IHl H)]. }
+    destruct at_ as [t|]; [destruct (list_base t) as [b|]|]; cbn [snd]; [apply Hl|apply coerce_or_err_paths|apply Hl].
+  - destruct at_ as [t|]; [apply coerce_or_err_paths|intros []].
 Qed.
 
 Definition find_by_key (k : nat) (args : list arg) : option arg := find (fun av => Nat.eqb (fst av) k) args.
@@ -659,13 +667,8 @@ Proof. reflexivity. Qed.
 Lemma resolve_field_eq fuel' (obj : gv) (id : nat) (alias : option nat) (name : nat) (args : list arg)                    (fsels : list sel) (t : nat) (result : list (nat * rv)) (depth : nat) (s : st) :
   resolve_field (Datatypes.S fuel') obj id alias name args fsels t result depth s =
       let key := key_of alias name in
-      (* first visit: ConType = t; sortArgs *)
-      let '(cur_args, ea_sort, s0) :=
-        match lookup id (s_args s) with
-        | Some t0 => (fst (sort_args S t0 name args), snd (sort_args S t0 name args), s)   (* Field.badArgs are reported again *)
-        | None => let (a, e) := sort_args S t name args in
-                  (a, e, mkSt ((id, t) :: s_args s) (s_calls s))
-        end in
+      let '(cur_args, ea_sort) := sort_args S t name args in
+      let s0 := mkSt ((id, t) :: s_args s) (s_calls s) in
       match ea_sort with
       | _ :: _ => Done (result, errs_in (PKey key) ea_sort, s0)
       | [] =>
@@ -1184,15 +1187,14 @@ Proof.
   lazymatch goal with
   | |- rel _ _ _ ?E1 _ => lazymatch E1 with match ?T with _ => _ end => set (TT := T) end
   end.
-  assert (Htrip : exists tX s0, TT = (fst (sort_args S tX name args), [], s0) /\ s_calls s0 = s_calls s).
-  { subst TT. destruct (lookup id (s_args s)) as [t0|].
-    - exists t0, s. rewrite (sort_args_noerr t0 name args Hargs). auto.
-    - exists t, (mkSt ((id, t) :: s_args s) (s_calls s)).
-      pose proof (sort_args_noerr t name args Hargs) as Hne.
-      destruct (sort_args S t name args) as [a e]. simpl in Hne. subst e. auto. }
-  destruct Htrip as [tX [s0 [Et Hs0]]]. clearbody TT. subst TT.
-  pose proof (sort_args_perm S tX name args Hschema Hargs) as Hperm.
-  set (cur := fst (sort_args S tX name args)) in *. clearbody cur.
+  assert (Htrip : TT = (fst (sort_args S t name args), [])).
+  { subst TT. pose proof (sort_args_noerr t name args Hargs) as Hne.
+    destruct (sort_args S t name args) as [a e]. simpl in Hne. subst e. reflexivity. }
+  clearbody TT. subst TT. cbv iota beta.
+  set (s0 := mkSt ((id, t) :: s_args s) (s_calls s)).
+  assert (Hs0 : s_calls s0 = s_calls s) by reflexivity. clearbody s0.
+  pose proof (sort_args_perm S t name args Hschema Hargs) as Hperm.
+  set (cur := fst (sort_args S t name args)) in *. clearbody cur.
   destruct (Nat.eqb name TYPENAME).
   { simpl. repeat split; auto. rewrite Hs0. now rewrite app_nil_r. }
   destruct (get_field_def S t name) as [fd|] eqn:Eg.
@@ -1294,7 +1296,7 @@ Proof.
   { rewrite forallb_forall in Hops. apply Hops.
     unfold choose_op in Eo. destruct (find (fun o0 => same_name (op_name o0) name) (d_ops d)) eqn:Ef.
     - inversion Eo; subst. apply find_some in Ef. tauto.
-    - destruct (d_ops d) as [|o1 [|o2 r]]; try discriminate. inversion Eo; subst. now left. }
+    - destruct name; [discriminate|]. destruct (d_ops d) as [|o1 [|o2 r]]; try discriminate. inversion Eo; subst. now left. }
   destruct (lockstep S G (d_frags d) any_installed max_depth vars Hs Hfr fuel) as [_ [_ [_ [_ [HS _]]]]].
   specialize (HS rootobj (op_sels o) (op_root_type (op_kind o)) [] (max_depth - 1)
                  (mkSt (s_args s) []) [] Hwo ltac:(lia)).
